@@ -341,9 +341,10 @@ package desync
 //@ func UnTar
 //@   prop C07
 //@   safety none
+//@   requires $consumed >= 0
 //@   ghost@entry $sawDone = false
 //@   ghost@recv:ctx.Done() $sawDone = true
-//@   loop 1: invariant !$sawDone
+//@   loop 1: invariant !$sawDone && $consumed >= 0
 //@   ensures $sawDone ==> is(r0, Interrupted)
 
 // ---------------------------------------------------------------------------- C12: request de-duplication
@@ -681,7 +682,8 @@ package desync
 //@   checks alloc
 //@   requires $consumed >= 0
 //@   modifies all, $consumed, $rp
-//@   loop 1: invariant $consumed >= 0
+//@   ensures $consumed >= old($consumed)
+//@   loop 1: invariant $consumed >= old($consumed)
 
 //# the server allocates for chunk data coming from its own store, not from the request stream
 //@ func (s *ProtocolServer) Serve
